@@ -14,6 +14,7 @@ From SCC Require Import Base.Sexp Model.RunBase Model.RunCheck.
 From SCC Require Import Model.RunFmt.
 From SCC Require Import Model.RunHeapOps.
 From SCC Require Import Model.RunC01.
+From SCC Require Import Model.RunRobust.
 From SCC Require Import Model.RunWtStages.
 From SCC Require Import Model.RunSizes.
 Open Scope string_scope.
@@ -43,6 +44,7 @@ Definition dispatch (cmd : string) (input : string) : string :=
   | "subst-corr" => run_subst_corr input
   | "rt" => run_rt input
   | "check" => run_check input
+  | "robust-lit" => run_robust_lit input
   | "fmt" => run_fmt input
   | "heapops-x86" => run_heapops_x86 input
   | "sizes" => run_sizes input
